@@ -163,7 +163,7 @@ def run_case(c, inputs: dict, call=None, extra_ns=None) -> NativeResult:
         _, fn = resolve_function(c.file, c.func)
         names = [n for n, _ in c.params]
         def call(inp):
-            return fn(*[inp[n] for n in names])
+            return fn(**{n: inp[n] for n in names}) if getattr(c, "call_by_keyword", False) else fn(*[inp[n] for n in names])
     try:
         result = call(inputs)
         nr.outcome = "return"
